@@ -407,7 +407,7 @@ def hyp_part(n_examples, shard):
 
 
 def run(tier, t0):
-    part = runner.hyp_shards("vf.props.c07", "hyp_part", 6000 if tier == "quick" else 240000)
+    part = runner.hyp_shards("vf.props.c07", "hyp_part", 14000 if tier == "quick" else 240000)
     for p in runner.parallel("vf.props.c07", "depth_part", [(sh, 3 if tier == "quick" else 40, runner.SEED) for sh in range(runner.NPROC)]):
         part.merge(p)
     for p in runner.parallel("vf.props.c07", "carried_part", [(sh, 6 if tier == "quick" else 120, runner.SEED) for sh in range(runner.NPROC)]):
